@@ -4,6 +4,10 @@ use crate::evaluator::{evaluate, is_value, step};
 use crate::parser::parse;
 use crate::tokenizer::tokenize;
 use crate::type_checker::type_check;
+use crate::normalizer::normalize_weak_head;
+use crate::unifier::unify;
+use crate::equality::syntactically_equal;
+use std::rc::Rc;
 use crate::error::Error;
 use crate::sx::{hex_decode, hex_encode};
 use crate::sx::{Sx, a, l, n};
@@ -25,6 +29,12 @@ pub fn run_case(c: &Sx) -> Sx {
         "print" => print_term(v),
         "listing" => listing_op(v),
         "diag" => diag(v),
+        "c06" => c06(v),
+        "unifypair" => unifypair(v),
+        "unify" => unify_op(v),
+        "whnf" => whnf_op(v),
+        "tcctx" => tcctx(v),
+        "pair" => pair(v),
         "roundtrip" => roundtrip(v),
         "asciiclasses" => ascii_classes(),
         h => panic!("harness: unknown op {h}"),
@@ -101,6 +111,7 @@ pub fn pipe(v: &[Sx]) -> Sx {
     let hooks_check = hooks_take();
     let es = exp.term(&e, true);
     let tys = exp.term(&ty, true);
+    let raw = exp.term(&e, false);
     let ev = if mode == "run" {
         match evaluate(&e) {
             Ok(x) => l(vec![a("value"), exp.term(&x, true)]),
@@ -115,7 +126,7 @@ pub fn pipe(v: &[Sx]) -> Sx {
     } else {
         a("noeval")
     };
-    l(vec![a("ok"), parsed, es, tys, ev, b(ctx_ok), hooks_check])
+    l(vec![a("ok"), parsed, es, tys, ev, b(ctx_ok), hooks_check, raw])
 }
 
 fn ex(t: &Term<'static>) -> Sx {
@@ -564,4 +575,174 @@ fn diag(v: &[Sx]) -> Sx {
         Ok(_) => l(vec![a("diag"), a("ok"), l(tl), parsed, l(vec![a("msgs")]), chars]),
         Err(es) => l(vec![a("diag"), a("type"), l(tl), parsed, errs("msgs", &es), chars]),
     }
+}
+
+// ------------------------------------------------------------------------- checker-level operations
+type TCtx = Vec<(Rc<Term<'static>>, usize)>;
+type DCtx = Vec<Option<(Rc<Term<'static>>, usize)>>;
+
+// (ctx (param A) | (def A offset D) ...) outermost first; A and D are terms valid where they were written
+fn import_ctx(imp: &mut Importer, s: &Sx) -> (TCtx, DCtx) {
+    let mut tc: TCtx = vec![];
+    let mut dc: DCtx = vec![];
+    for e in &s.list()[1..] {
+        let e = e.list();
+        match e[0].atom() {
+            "param" => {
+                tc.push((Rc::new(imp.term(&e[1])), 0));
+                dc.push(None);
+            }
+            "def" => {
+                let off = e[2].usize();
+                tc.push((Rc::new(imp.term(&e[1])), off));
+                dc.push(Some((Rc::new(imp.term(&e[3])), off)));
+            }
+            k => panic!("harness: ctx entry {k}"),
+        }
+    }
+    (tc, dc)
+}
+
+fn export_ctx(exp: &mut Exporter<'static>, tc: &TCtx, dc: &DCtx) -> Sx {
+    let mut r = vec![a("ctx")];
+    for (t, d) in tc.iter().zip(dc.iter()) {
+        match d {
+            None => r.push(l(vec![a("param"), exp.term(&t.0, true)])),
+            Some((dt, off)) => r.push(l(vec![a("def"), exp.term(&t.0, true), n(*off), exp.term(dt, true)])),
+        }
+    }
+    if tc.len() != dc.len() {
+        r.push(a("length-mismatch"));
+    }
+    l(r)
+}
+
+// (whnf (ctx ...) T): normalize_weak_head under a definitions context; the context afterwards
+fn whnf_op(v: &[Sx]) -> Sx {
+    let mut imp = Importer::default();
+    let (tc, mut dc) = import_ctx(&mut imp, &v[1]);
+    let t = imp.term(&v[2]);
+    let before = dc.len();
+    let r = normalize_weak_head(&t, &mut dc);
+    let mut exp = Exporter::from_importer(&imp);
+    let _ = tc;
+    l(vec![a("whnf"), exp.term(&r, true), b(dc.len() == before)])
+}
+
+// (unifypair (ctx ...) A B): unify in both orders on fresh copies, syntactic equality, and the context afterwards
+fn unifypair(v: &[Sx]) -> Sx {
+    let run = |x: usize, y: usize| -> (bool, bool) {
+        let mut imp = Importer::default();
+        let (_, mut dc) = import_ctx(&mut imp, &v[1]);
+        let p = imp.term(&v[x]);
+        let q = imp.term(&v[y]);
+        let before = dc.len();
+        let r = unify(&p, &q, &mut dc);
+        (r, dc.len() == before)
+    };
+    let (ab, c1) = run(2, 3);
+    let (ba, c2) = run(3, 2);
+    let mut imp = Importer::default();
+    let p = imp.term(&v[2]);
+    let q = imp.term(&v[3]);
+    l(vec![a("unified"), b(ab), b(ba), b(syntactically_equal(&p, &q)), b(c1 && c2)])
+}
+
+// (unify (ctx ...) A B (store ...)): one unification with holes; result, both sides and the final store
+fn unify_op(v: &[Sx]) -> Sx {
+    let mut imp = Importer::default();
+    let (_, mut dc) = import_ctx(&mut imp, &v[1]);
+    let p = imp.term(&v[2]);
+    let q = imp.term(&v[3]);
+    if v.len() > 4 {
+        imp.store(&v[4]);
+    }
+    let before = dc.len();
+    let _ = hooks_take();
+    let r = unify(&p, &q, &mut dc);
+    let hk = hooks_take();
+    let mut exp = Exporter::from_importer(&imp);
+    let pz = exp.term(&p, true);
+    let qz = exp.term(&q, true);
+    let st = exp.store();
+    l(vec![a("unify"), b(r), pz, qz, st, b(dc.len() == before), hk])
+}
+
+// (c06 x:<src>): for an accepted closed program: its type, weak-head normal form, value, and unify against
+// itself and against each of its first reducts in both argument orders
+fn c06(v: &[Sx]) -> Sx {
+    let src = match String::from_utf8(hex_decode(v[1].atom())) {
+        Ok(s) => s,
+        Err(_) => return l(vec![a("notutf8")]),
+    };
+    let toks = match tokenize(None, &src) {
+        Ok(t) => t,
+        Err(_) => return l(vec![a("rejected")]),
+    };
+    let term = match parse(None, &src, &toks[..], &[]) {
+        Ok(t) => t,
+        Err(_) => return l(vec![a("rejected")]),
+    };
+    let mut tc = vec![];
+    let mut dc = vec![];
+    let (e, ty) = match type_check(None, &src, &term, &mut tc, &mut dc) {
+        Ok(x) => x,
+        Err(_) => return l(vec![a("rejected")]),
+    };
+    let mut exp = Exporter::default();
+    let es = exp.term(&e, true);
+    let tys = exp.term(&normalize_weak_head(&ty, &mut dc), true);
+    let nf = normalize_weak_head(&e, &mut dc);
+    let nfs = exp.term(&nf, true);
+    let self_unify = unify(&e, &e, &mut dc);
+    let mut reducts = vec![a("reducts")];
+    let mut cur = e.clone();
+    let mut k = 0;
+    while k < 20 {
+        match step(&cur) {
+            Some(nx) => {
+                let u1 = unify(&e, &nx, &mut dc);
+                let u2 = unify(&nx, &e, &mut dc);
+                reducts.push(l(vec![b(u1), b(u2)]));
+                cur = nx;
+                k += 1;
+            }
+            None => break,
+        }
+    }
+    let value = match evaluate(&e) {
+        Ok(x) => l(vec![a("value"), exp.term(&x, true)]),
+        Err(_) => a("stuck"),
+    };
+    l(vec![a("c06"), es, tys, nfs, value, b(self_unify), l(reducts), b(dc.is_empty() && tc.is_empty())])
+}
+
+// (tcctx (ctx ...) T): type_check of an open term under a context, the contexts afterwards, and the same
+// for the closed program obtained by binding the context's variables around the term
+fn tcctx(v: &[Sx]) -> Sx {
+    let mut imp = Importer::default();
+    let (mut tc, mut dc) = import_ctx(&mut imp, &v[1]);
+    let t = imp.term(&v[2]);
+    let mut exp = Exporter::from_importer(&imp);
+    let before = export_ctx(&mut exp, &tc, &dc);
+    let r = type_check(None, "", &t, &mut tc, &mut dc);
+    let after = export_ctx(&mut exp, &tc, &dc);
+    let open_res = match &r {
+        Ok((e, ty)) => l(vec![a("ok"), exp.term(e, true), exp.term(ty, true)]),
+        Err(es) => l(vec![a("err"), n(es.len())]),
+    };
+    l(vec![a("tcctx"), open_res, b(before == after)])
+}
+
+// (pair x:<src A> x:<src B>): both programs through the whole pipeline (check and run)
+fn pair(v: &[Sx]) -> Sx {
+    let one = |h: &Sx| -> Sx {
+        let r = pipe(&[a("pipe"), a("run"), h.clone()]);
+        match &r {
+            Sx::L(x) if x[0].atom() == "ok" => l(vec![a("accepted"), x[3].clone(), x[4].clone()]),
+            Sx::L(x) => l(vec![a("rejected"), x[0].clone()]),
+            _ => r,
+        }
+    };
+    l(vec![a("pair"), one(&v[1]), one(&v[2])])
 }
